@@ -46,6 +46,10 @@ def rand_addr(rng, kind=None):
     if kind == "ipv4":
         return ("ipv4", sp(special_v4, 4), sp(special_v4, 4), port(), port())
     if kind == "ipv6":
+        if rng.random() < 0.2:
+            # both endpoints of the same special class (both IPv4-mapped, both IPv4-compatible, ...)
+            cls = rng.choice([bytes(10) + b"\xff\xff", bytes(12), b"\x00\x64\xff\x9b" + bytes(8), bytes(8) + b"\xff\xff" + bytes(2)])
+            return ("ipv6", cls + rand_bytes(rng, 4), cls + special_v4(rng), port(), port())
         return ("ipv6", sp(special_v6, 16), sp(special_v6, 16), port(), port())
     return ("unix", sp(special_unix, 108), sp(special_unix, 108))
 
